@@ -747,6 +747,8 @@ class Interp:
             self.env[t.id] = v
         elif isinstance(t, ast.Attribute) and isinstance(t.value, ast.Name) and t.value.id == "self":
             self.selfattrs[self._mangle(t.attr)] = v
+        elif isinstance(t, ast.Attribute) and isinstance(t.value, ast.Name) and t.value.id not in self.env and t.value.id in (self.externals.get("__class_state__") or {}):
+            self.externals["__class_state__"][t.value.id][t.attr] = v
         elif isinstance(t, (ast.Tuple, ast.List)):
             stars = [i for i, x in enumerate(t.elts) if isinstance(x, ast.Starred)]
             if len(stars) == 1 and isinstance(v, (list, tuple)) and len(v) >= len(t.elts) - 1:
@@ -919,7 +921,18 @@ class Interp:
                 if e.attr in self.methods:
                     node = self.methods[e.attr]
                     return PyFunc(lambda a, kw, node=node: self.call_function(node, a, kw, bind_self=True), f"self.{e.attr}")
+                cs_ = self.externals.get("__class_state__")
+                if cs_ is not None:
+                    inst_ = self.env.get("self")
+                    for cn_ in ([getattr(getattr(inst_, "cls", None), "name", None)] if inst_ is not None else []) + [self.cls_name]:
+                        if cn_ in cs_ and e.attr in cs_[cn_]:
+                            return cs_[cn_][e.attr]  # class-level attribute read through the instance
                 raise Undecided(f"unknown attribute self.{e.attr}")
+            if isinstance(e.value, ast.Name) and e.value.id not in self.env and e.value.id in (self.externals.get("__class_state__") or {}):
+                cs_ = self.externals["__class_state__"][e.value.id]
+                if e.attr in cs_:
+                    return cs_[e.attr]  # ClassName.attr: state shared by every instance
+                raise Undecided(f"class attribute {e.value.id}.{e.attr} not modelled")
             if A.dotted(e) in HANDLE_NAMES:
                 return MODULE
             if isinstance(e.value, (ast.Name, ast.Attribute, ast.Subscript, ast.Call)):
